@@ -97,6 +97,24 @@ def runDe : P String := do
     let cfg : DeConfig := { maxSeqSize := maxSeq, allowedDepth := depth }
     pure (fmtDe (deOne cfg S root depth hint (mk bs)))
 
+/-- `dealloc <maxSeq> <depth> <schema> <bytes>`: slice input, `IgnoredAny` target. The model's slice
+    back-end has no buffer at all; the oracle is that the real code made no heap allocation. -/
+def runDealloc : P String := do
+  let maxSeq ← pNat
+  let depth ← pNat
+  let sm ← pSchemaMut
+  let bs ← pBytes
+  let S := freezeNodes sm
+  match S[0]? with
+  | none => pure "noroot"
+  | some root =>
+    let cfg : DeConfig := { maxSeqSize := maxSeq, allowedDepth := depth }
+    match deOne cfg S root depth .ignored { rest := bs } with
+    | .ok (_, left) => pure s!"ok left {left} allocs=0"
+    | .error .custom => pure "err custom"
+    | .error .io => pure "err io"
+    | .error .panic => pure "panic"
+
 /-- drop the `borrowed` flags: the only difference allowed between back-ends on success -/
 partial def unborrow : Out → Out
   | .str s _ => .str s false
@@ -244,6 +262,78 @@ def runPerm : P String := do
           else if !b.all (· == "err") then "VIOLATION an unknown, duplicated or missing field was accepted"
           else "ok"
     pure (" ; ".intercalate a ++ " | " ++ " ; ".intercalate b ++ " # " ++ verdict)
+
+/-- `schema <ok|err|any> <xtext> <json> <xpcf|->`: parse a schema document. Oracle (C07, C08):
+    a specification-valid document parses and its Parsing Canonical Form is the one computed on
+    the abstract schema by the generator (fullnames resolved per the specification); a document
+    of a rejection class is rejected. -/
+def runSchema : P String := do
+  let expect ← tok
+  let _text ← pBytes
+  let j ← pJson
+  let expected ← (do
+    match (← peek) with
+    | some "-" => do let _ ← tok; pure none
+    | _ => do pure (some (← pStr)) : P (Option String))
+  match parseJson j (4 * jsonSize j + 8) with
+  | .error .panic => pure "panic # VIOLATION model out of fuel"
+  | .error _ =>
+    pure (if expect = "ok" then "err # VIOLATION a specification-valid schema document was rejected" else "err # ok")
+  | .ok S =>
+    let pcfR := canonicalForm S (8 * (S.size + 1) * (S.size + 1) + 64)
+    let pcfStr := match pcfR with
+      | .ok p => s!"pcf {strHex p} fp=pcf"
+      | .error _ => "pcf-err"
+    -- freezing a parsed schema only fails where the canonical form does
+    let tail := match pcfR with | .ok _ => "jsonkept" | .error _ => "freeze-err"
+    let verdict :=
+      if expect = "err" then "VIOLATION a schema document of a rejection class was accepted"
+      else match expected, pcfR with
+        | some e, .ok p => if e = p then "ok" else "VIOLATION the canonical form differs from the specification's (names resolved differently, or attributes/order not preserved)"
+        | some _, .error _ => "VIOLATION no canonical form for a specification-valid document"
+        | none, _ => "ok"
+    pure s!"ok {schemaMutToString S} {pcfStr} {tail} # {verdict}"
+
+/-- `graph <unique> <schema>`: a node graph assembled through the builder API. Oracle (C09, C19):
+    every operation returns; with distinct fullnames the regenerated JSON parses back to a graph
+    with the same canonical form, and rendering it again gives the same document. -/
+def runGraph : P String := do
+  let unique := (← pNat) ≠ 0
+  let S ← pSchemaMut
+  let n := S.size
+  let fuel := 8 * (n + 2) * (n + 2) * (n + 2) + 256
+  let pcfR := canonicalForm S fuel
+  let jsonR := renderJson S fuel
+  let pcfS := match pcfR with | .ok p => s!"pcf {strHex p}" | .error _ => "pcf-err"
+  let jsonS := match jsonR with | .ok j => s!"json {jsonToString j}" | .error _ => "json-err"
+  let frz := match freeze S false fuel with | .ok _ => "freeze-ok" | .error _ => "freeze-err"
+  let (re, verdictRe) : String × String := match jsonR with
+    | .error _ => ("", "ok")
+    | .ok j =>
+      match parseJson j (4 * jsonSize j + 8) with
+      | .error _ => ("reparse-err", if unique then "VIOLATION the regenerated JSON does not parse back" else "ok")
+      | .ok S2 =>
+        let n2 := S2.size
+        let fuel2 := 8 * (n2 + 2) * (n2 + 2) * (n2 + 2) + 256
+        let p2 := canonicalForm S2 fuel2
+        let p2s := match p2 with | .ok p => s!"pcf2 {strHex p}" | .error _ => "pcf2-err"
+        let j2 := renderJson S2 fuel2
+        let idem := match j2 with
+          | .ok j2 => if jsonToString j2 = jsonToString j then "render-idempotent" else "render-CHANGED"
+          | .error _ => "render2-err"
+        let v :=
+          if !unique then "ok"
+          else match pcfR, p2 with
+            | .ok a, .ok b =>
+              if a ≠ b then "VIOLATION the regenerated JSON denotes a schema with another canonical form"
+              else if idem ≠ "render-idempotent" then "VIOLATION rendering the re-parsed schema gives another document (structure or logical types not preserved)"
+              else "ok"
+            | _, _ => "VIOLATION canonical form unavailable although the JSON was regenerated"
+        (s!"reparse-ok {p2s} {idem}", v)
+  let panics := [pcfR.toOption.isNone && (match pcfR with | .error .panic => true | _ => false),
+                 (match jsonR with | .error .panic => true | _ => false)]
+  let verdict := if panics.any id then "VIOLATION model out of fuel" else verdictRe
+  pure (" ".intercalate ([pcfS, jsonS, frz] ++ (if re = "" then [] else [re])) ++ " # " ++ verdict)
 
 /-! ### Container writer histories -/
 
@@ -514,7 +604,10 @@ def dispatch (line : String) : String :=
       | "crc" => some runCrc
       | "de" => some runDe
       | "c11" => some runC11
+      | "dealloc" => some runDealloc
       | "rt" => some runRt
+      | "schema" => some runSchema
+      | "graph" => some runGraph
       | "reuse" => some runReuse
       | "perm" => some runPerm
       | "ocfw" => some runOcfw
